@@ -8,6 +8,7 @@ import (
 	"go/constant"
 	"go/types"
 	"math/big"
+	"regexp"
 	"sort"
 	"strings"
 )
@@ -183,7 +184,95 @@ func Select(arr, idx Term) Term {
 		panic("Select on non-array " + s + " term " + arr.S)
 	}
 	_, v := splitArraySort(arr.Sort)
-	return App(v, "select", arr, idx)
+	// read-over-write simplification when the indices are syntactically
+	// equal or syntactically distinct (fresh refs A0+k, literals)
+	cur := arr.S
+	for strings.HasPrefix(cur, "(store ") {
+		args := splitTopArgs(cur[len("(store ") : len(cur)-1])
+		if len(args) != 3 {
+			break
+		}
+		if args[1] == idx.S {
+			return Term{args[2], v}
+		}
+		if !syntacticallyDistinct(args[1], idx.S) {
+			break
+		}
+		cur = args[0]
+	}
+	return App(v, "select", Term{cur, arr.Sort}, idx)
+}
+
+var freshRefRe = regexp.MustCompile(`^(A0|\(\+ A0 \d+\))$`)
+var bvLitRe = regexp.MustCompile(`^\(_ bv\d+ \d+\)$`)
+var intLitRe = regexp.MustCompile(`^(\d+|\(- \d+\))$`)
+
+func syntacticallyDistinct(a, b string) bool {
+	if a == b {
+		return false
+	}
+	if freshRefRe.MatchString(a) && freshRefRe.MatchString(b) {
+		return true
+	}
+	if bvLitRe.MatchString(a) && bvLitRe.MatchString(b) {
+		return true
+	}
+	if intLitRe.MatchString(a) && intLitRe.MatchString(b) {
+		return true
+	}
+	// a fresh ref is never 0 or negative (A0 > 0)
+	if (freshRefRe.MatchString(a) && intLitRe.MatchString(b)) || (freshRefRe.MatchString(b) && intLitRe.MatchString(a)) {
+		return true
+	}
+	return false
+}
+
+// splitTopArgs splits "a (b c) d" into top-level s-expression arguments.
+func splitTopArgs(s string) []string {
+	var out []string
+	depth := 0
+	start := -1
+	inBar := false
+	for i := 0; i < len(s); i++ {
+		c := s[i]
+		if inBar {
+			if c == '|' {
+				inBar = false
+			}
+			continue
+		}
+		switch c {
+		case '|':
+			inBar = true
+			if start < 0 {
+				start = i
+			}
+		case '(':
+			if depth == 0 && start < 0 {
+				start = i
+			}
+			depth++
+		case ')':
+			depth--
+			if depth == 0 {
+				out = append(out, s[start:i+1])
+				start = -1
+			}
+		case ' ', '\n', '\t':
+			if depth == 0 && start >= 0 {
+				out = append(out, s[start:i])
+				start = -1
+			}
+		default:
+			if start < 0 {
+				start = i
+			}
+		}
+	}
+	if start >= 0 {
+		out = append(out, s[start:])
+	}
+	return out
 }
 func Store(arr, idx, val Term) Term {
 	k, v := splitArraySort(arr.Sort)
@@ -213,19 +302,27 @@ func splitArraySort(s Sort) (Sort, Sort) {
 }
 
 // Slice accessors
-func SlBase(s Term) Term { return App(SRef, "sbase", s) }
-func SlOff(s Term) Term  { return App(SBV(64), "soff", s) }
-func SlLen(s Term) Term  { return App(SBV(64), "slen_", s) }
-func SlCap(s Term) Term  { return App(SBV(64), "scap", s) }
+func ctorArg(t Term, ctor string, i int, sort Sort, acc string) Term {
+	if strings.HasPrefix(t.S, "("+ctor+" ") {
+		if args := splitTopArgs(t.S[len(ctor)+2 : len(t.S)-1]); len(args) > i {
+			return Term{args[i], sort}
+		}
+	}
+	return App(sort, acc, t)
+}
+func SlBase(s Term) Term { return ctorArg(s, "mkSlice", 0, SRef, "sbase") }
+func SlOff(s Term) Term  { return ctorArg(s, "mkSlice", 1, SBV(64), "soff") }
+func SlLen(s Term) Term  { return ctorArg(s, "mkSlice", 2, SBV(64), "slen_") }
+func SlCap(s Term) Term  { return ctorArg(s, "mkSlice", 3, SBV(64), "scap") }
 func MkSlice(base, off, ln, cp Term) Term {
 	return App(SSlice, "mkSlice", base, off, ln, cp)
 }
 
 // Iface accessors
-func ITag(i Term) Term { return App(SRef, "itag", i) }
-func IRef(i Term) Term { return App(SRef, "iref", i) }
-func IBV(i Term) Term  { return App(SBV(64), "ibv", i) }
-func IStr(i Term) Term { return App(SStr, "istr", i) }
+func ITag(i Term) Term { return ctorArg(i, "mkI", 0, SRef, "itag") }
+func IRef(i Term) Term { return ctorArg(i, "mkI", 1, SRef, "iref") }
+func IBV(i Term) Term  { return ctorArg(i, "mkI", 2, SBV(64), "ibv") }
+func IStr(i Term) Term { return ctorArg(i, "mkI", 3, SStr, "istr") }
 func MkI(tag, ref, bv, str Term) Term {
 	return App(SIface, "mkI", tag, ref, bv, str)
 }
